@@ -88,3 +88,48 @@ Theorem use_leaves_set : forall (drop_root : bool) (items : list item) (s : text
   In s (use_leaves drop_root items) <-> exists e, In e (parse_entries drop_root items) /\ s = render_leaf e.
 Proof. exact use_leaves_set_lemma. Qed.
 Print Assumptions use_leaves_set.
+
+(* P3 (soundness of the identification, partial: the core pipeline, compared as trees).  Step is the closed list
+   of normalisations, one constructor each (Model.v); Equiv its reflexive-symmetric-transitive closure under
+   nesting.  Every pass of norm_seq is a chain of steps: *)
+Theorem norm_seq_sound : forall (o : opts) (ctx : option delim) (items : list item),
+  Equiv (sctx_of ctx) items (norm_seq o ctx items).
+Proof. exact norm_seq_equiv_lemma. Qed.
+Print Assumptions norm_seq_sound.
+
+(* ... hence two programs with the same core normal form (as trees) are related by finitely many normalisation
+   steps, forwards or backwards.  Missing for `norm_sound` proper: merge_derives (the prototype also merges
+   inside macro matchers, which Equiv does not allow), reorder_runs / import regrouping (canonical strings), the
+   atom-level normalisations done while building the tree (doc re-indentation, string continuations, CRLF,
+   tuple-index floats, opt-in literal spellings: both sides go through `tree o`), and the injectivity of flatten
+   (the checker compares flattened normal forms). *)
+Theorem norm_sound_partial : forall (o : opts) (a b : list tok),
+  norm_core_items o a = norm_core_items o b ->
+  Equiv CTop (tree o (significant a)) (tree o (significant b)).
+Proof. exact norm_core_sound_lemma. Qed.
+Print Assumptions norm_sound_partial.
+
+(* per-pass: tokens.py rewrite (redundant `;`, empty where / bounds, extern ABI, pub(in ..), block tails, match
+   arms, closures, leading pipes, trailing separators) *)
+Theorem rewrite_is_steps : forall (o : opts) (ctx : option delim) (seq : list item),
+  Equiv (sctx_of ctx) seq (rewrite o ctx seq).
+Proof. exact rewrite_equiv. Qed.
+Print Assumptions rewrite_is_steps.
+
+(* per-pass: tokens.py glue *)
+Theorem glue_is_steps : forall (c : sctx) (seq pre : list item), Equiv c (pre ++ seq) (pre ++ glue seq).
+Proof. exact glue_equiv. Qed.
+Print Assumptions glue_is_steps.
+
+(* per-pass: tokens.py macro_def, given that each arm body is equivalent, as code in a block, to its normal form *)
+Theorem macro_def_is_steps : forall items : list mitem,
+  Forall (fun p => forall d s, fst p = Grp d s -> Equiv (CIn DBrace) s (snd p)) items ->
+  Equiv CMacro (map fst items) (macro_def items).
+Proof. exact macro_def_equiv. Qed.
+Print Assumptions macro_def_is_steps.
+
+(* the relation is not too liberal: equivalent trees have the same essential atoms, in the same order *)
+Theorem Equiv_preserves_essential : forall (c : sctx) (a b : list item),
+  Equiv c a b -> ess (flatten a) = ess (flatten b).
+Proof. intros c a b H. rewrite !ess_flatten. apply (Equiv_E c a b H). Qed.
+Print Assumptions Equiv_preserves_essential.
